@@ -193,9 +193,12 @@ Inductive op :=
 | OMsg (signer : string) (m : msg) (tape : list bool)
 | ODeposit (to denom : string) (amt : Z)
 | OQuery (q : query)
-| OBlockedOutside
+| OBlockedOutside       (* a packet the middleware in front of the orbiter (blockibc) refused itself *)
 | OCallback             (* another IBC callback (acknowledgement, timeout): the embedded module's, differential only *)
-| OAppPanics.           (* the wrapped ICS-20 application itself panicked on a packet that is not the orbiter's *)      (* a packet the middleware in front of the orbiter (blockibc) refused itself *)
+| OAppPanics            (* the wrapped ICS-20 application itself panicked on a packet that is not the orbiter's *)
+(* an external module (bank, CCTP, Warp) panicked during the [k]-th external call of this packet: the
+   transaction is aborted (baseapp recovers and discards the message's cache): no acknowledgement, no change *)
+| OExtPanics (p : packet) (tape : list bool) (lie : Z) (k : nat).
 
 Inductive out :=
 | OutRecv (r : recv_result)
@@ -203,7 +206,8 @@ Inductive out :=
 | OutDeposit
 | OutQuery (a : res answer)
 | OutBlocked
-| OutAppPanic.
+| OutAppPanic
+| OutExtPanic (trace : list (call * bool)).   (* the external calls made up to the one that panicked *)
 
 Definition step_msg (cfg : config) (w : world) (signer : string) (m : msg) (tape : list bool) : world * out :=
   let s0 := {| ps_l := w_l w; ps_tape := tape; ps_trace := []; ps_moves := [] |} in
@@ -221,6 +225,7 @@ Definition step (cfg : config) (e : env) (w : world) (o : op) : world * out :=
   | OQuery q => (w, OutQuery (run_query (w_o w) q))
   | OBlockedOutside => (w, OutBlocked)
   | OAppPanics => (w, OutAppPanic)
+  | OExtPanics p tape lie k => (w, OutExtPanic (firstn k (rr_trace (recv_lie cfg e w p tape lie))))
   | OCallback => (w, OutDeposit)
   end.
 
@@ -228,6 +233,7 @@ Definition step (cfg : config) (e : env) (w : world) (o : op) : world * out :=
 Definition step_gas (g : gas_fn) (cfg : config) (e : env) (w : world) (o : op) : world * out :=
   match o with
   | ORecv p tape lie => let r := recv_gas g cfg e w p tape lie in (rr_world r, OutRecv r)
+  | OExtPanics p tape lie k => (w, OutExtPanic (firstn k (rr_trace (recv_gas g cfg e w p tape lie))))
   | _ => step cfg e w o
   end.
 
